@@ -7,7 +7,7 @@ CONSTANTS
   RevAhead = {0, 1}
   MaxNow = 4
   MaxPkt = 2
-  MaxScan = 2
+  MaxScan = 1
   Batch = 1000
   Split = FALSE
   RevRace = FALSE
